@@ -3,7 +3,7 @@
    Proofs/BuildSemLemmas.v (the built routine computes the reference semantics). *)
 From Coq Require Import List Arith Bool.
 Import ListNotations.
-Require Import TL.Model.Core TL.Model.Build TL.Proofs.BuildLemmas.
+Require Import TL.Model.Core TL.Model.Build TL.Proofs.CoreMono TL.Proofs.BuildLemmas TL.Proofs.BuildSemLemmas.
 
 (* For every class environment E, both directions (dir = true: unmarshal), every annotation T and
    every node order pre ++ [root] that graph.static_order may return for T -- any order in which the
@@ -19,6 +19,35 @@ Theorem C05_build_routes :
     norm (ntype root) = norm T ->
     exists r, build_root E orders dir T = Ok r /\ routes E dir noop_leaf r T.
 Proof. exact build_routes. Qed.
+
+(* graph.static_order, as far as C05 needs it: for every annotation it returns an order accepted by
+   order_ok whose last node is that annotation's own (proved of the graph model in C09, decided on
+   every observed order in the tie) *)
+Definition orders_contract (E : env) (dir : bool) (noop_leaf : nat -> bool) (orders : ty -> option (list node)) : Prop :=
+  forall t ns, orders t = Some ns ->
+    exists pre root, ns = pre ++ [root] /\ order_ok E dir noop_leaf [] ns = true /\ norm (ntype root) = norm t.
+
+(* unmarshal(T, x) through the mechanism equals the composite rebuilt from each member converted by its
+   own type's rules (the reference semantics unm), for every input x, including which exception is raised
+   when a member fails: whatever terminal result the mechanism gives with some fuel is the result of unm
+   for all sufficiently large fuel.  No bound on nesting depth, graph size or value size. *)
+Theorem C05_unmarshal :
+  forall (rt : runtime) (E : env) (noop_leaf : nat -> bool) (orders : ty -> option (list node)),
+    orders_contract E true noop_leaf orders ->
+    (forall s x, noop_leaf s = true -> leaf_u rt s x = Ok x) ->
+    forall (T : ty) (fuel : nat) (x : pv),
+      done (api_call rt E orders true fuel T x) = true ->
+      exists m, forall m', m' >= m -> unm rt E m' T x = api_call rt E orders true fuel T x.
+Proof. intros rt E noop_leaf orders Ho Hn T fuel x Hd. exact (api_u_sound rt E noop_leaf orders Ho Hn T fuel x Hd). Qed.
+
+Theorem C05_marshal :
+  forall (rt : runtime) (E : env) (noop_leaf : nat -> bool) (orders : ty -> option (list node)),
+    orders_contract E false noop_leaf orders ->
+    (forall s x, noop_leaf s = true -> leaf_m rt s x = Ok x) ->
+    forall (T : ty) (fuel : nat) (x : pv),
+      done (api_call rt E orders false fuel T x) = true ->
+      exists m, forall m', m' >= m -> mar rt E m' T x = api_call rt E orders false fuel T x.
+Proof. intros rt E noop_leaf orders Ho Hn T fuel x Hd. exact (api_m_sound rt E noop_leaf orders Ho Hn T fuel x Hd). Qed.
 
 (* non-vacuity: a recursive class  class N0: kids: list[N0]; val: Optional[int]
    with the order observed on the implementation for root list[N0] *)
@@ -43,3 +72,5 @@ Example C05_hyps_satisfiable :
 Proof. vm_compute. repeat split. Qed.
 
 Print Assumptions C05_build_routes.
+Print Assumptions C05_unmarshal.
+Print Assumptions C05_marshal.
